@@ -2,13 +2,18 @@ package main
 
 import (
 	"bytes"
+	"context"
 	"encoding/json"
 	"errors"
 	"fmt"
 	"hash/fnv"
+	"strings"
 
+	xhttp2 "golang.org/x/net/http2"
 	xhpack "golang.org/x/net/http2/hpack"
+	mhttp2 "mosn.io/mosn/pkg/module/http2"
 	mhpack "mosn.io/mosn/pkg/module/http2/hpack"
+	"mosn.io/pkg/buffer"
 	"verif/vh"
 )
 
@@ -136,11 +141,28 @@ type encoder interface {
 	Table() tabView
 }
 type decoder interface {
-	Write(p []byte) (int, error)
-	Close() error
+	// Block runs one header block, arriving in the pieces wire[:cut] and wire[cut:], through the decoder (and the
+	// receiver in front of it, if there is one): what came out, the receiver's verdict ("" without receiver | ok |
+	// truncated | malformed = the block is refused, the connection goes on) and the error that ends the connection.
+	Block(wire []byte, cut int) (out []hfield, verdict string, err error)
 	SetAllowed(v uint32)
-	SetEmit(fn func(f hfield))
 	Table() tabView
+}
+
+// noLimit is the specification's Inf: no receiver in front of the decoder.
+const noLimit = 1000000
+
+// bare feeds the block straight into a decoder.
+func bare(wire []byte, cut int, setEmit func(fn func(f hfield)), write func(p []byte) (int, error), cl func() error) ([]hfield, string, error) {
+	out := []hfield{}
+	setEmit(func(f hfield) { out = append(out, f) })
+	_, err := write(wire[:cut])
+	if err == nil {
+		if _, err = write(wire[cut:]); err == nil {
+			err = cl()
+		}
+	}
+	return out, "", err
 }
 
 type mEnc struct{ e *mhpack.Encoder }
@@ -168,12 +190,12 @@ func (x xEnc) Table() tabView  { return tabView{Tab: []nv{}} }
 
 type mDec struct{ d *mhpack.Decoder }
 
-func (m mDec) Write(p []byte) (int, error) { return m.d.Write(p) }
-func (m mDec) Close() error                { return m.d.Close() }
-func (m mDec) SetAllowed(v uint32)         { m.d.SetAllowedMaxDynamicTableSize(v) }
-func (m mDec) SetEmit(fn func(f hfield)) {
-	m.d.SetEmitFunc(func(f mhpack.HeaderField) { fn(hfield{f.Name, f.Value, f.Sensitive}) })
+func (m mDec) Block(wire []byte, cut int) ([]hfield, string, error) {
+	return bare(wire, cut, func(fn func(f hfield)) {
+		m.d.SetEmitFunc(func(f mhpack.HeaderField) { fn(hfield{f.Name, f.Value, f.Sensitive}) })
+	}, m.d.Write, m.d.Close)
 }
+func (m mDec) SetAllowed(v uint32) { m.d.SetAllowedMaxDynamicTableSize(v) }
 func (m mDec) Table() tabView {
 	ents, size, max := m.d.VerifDynTable()
 	t := tabView{Has: true, Tab: []nv{}, Max: max, Size: size}
@@ -183,15 +205,137 @@ func (m mDec) Table() tabView {
 	return t
 }
 
+// mRecv is MOSN's receiver of header blocks as its stream connections set it up (NewServerConn / NewClientConn): an
+// MFramer whose ReadMetaHeaders decoder lives as long as the connection, here with a small MaxHeaderListSize.  The
+// block arrives as HEADERS + CONTINUATION written by the reference Framer; readMetaFrame mutes the decoder where the
+// list crosses the limit or turns out malformed.
+type mRecv struct {
+	fr  *mhttp2.MFramer
+	sid *uint32
+}
+
+func newMRecv(limit uint32) mRecv {
+	fr := new(mhttp2.MFramer)
+	fr.Framer.ReadMetaHeaders = mhpack.NewDecoder(4096, nil)
+	fr.Framer.MaxHeaderListSize = limit
+	fr.Framer.SetMaxReadFrameSize(1 << 20)
+	sid := uint32(1)
+	return mRecv{fr, &sid}
+}
+
+func (m mRecv) Block(wire []byte, cut int) (out []hfield, verdict string, err error) {
+	out = []hfield{}
+	var fb bytes.Buffer
+	xw := xhttp2.NewFramer(&fb, nil)
+	sid := *m.sid
+	*m.sid += 2
+	vh.Must(xw.WriteHeaders(xhttp2.HeadersFrameParam{StreamID: sid, BlockFragment: wire[:cut], EndStream: true, EndHeaders: cut == len(wire)}), "WriteHeaders")
+	if cut < len(wire) {
+		vh.Must(xw.WriteContinuation(sid, true, wire[cut:]), "WriteContinuation")
+	}
+	defer func() {
+		if r := recover(); r != nil {
+			if _, is := r.(livelock); is {
+				err = errors.New("the frame reader never returns")
+				return
+			}
+			err = fmt.Errorf("panic: %v", r)
+		}
+	}()
+	buf := &countBuf{IoBuffer: buffer.NewIoBufferBytes(fb.Bytes())}
+	f, _, rerr := m.fr.ReadFrame(context.Background(), buf, 0)
+	if rerr != nil {
+		if se, is := rerr.(mhttp2.StreamError); is && se.Code == mhttp2.ErrCodeProtocol {
+			return out, "malformed", nil
+		}
+		return out, "", errors.New(clip(rerr.Error()))
+	}
+	mh, is := f.(*mhttp2.MetaHeadersFrame)
+	if !is {
+		return out, "", fmt.Errorf("read a %T", f)
+	}
+	if buf.IoBuffer.Len() != 0 {
+		return out, "", fmt.Errorf("%d bytes of the header block left in the buffer", buf.IoBuffer.Len())
+	}
+	for _, x := range mh.Fields {
+		out = append(out, hfield{x.Name, x.Value, x.Sensitive})
+	}
+	if mh.Truncated {
+		return out, "truncated", nil
+	}
+	return out, "ok", nil
+}
+func (m mRecv) SetAllowed(v uint32) { m.fr.ReadMetaHeaders.SetAllowedMaxDynamicTableSize(v) }
+func (m mRecv) Table() tabView      { return mDec{m.fr.ReadMetaHeaders}.Table() }
+
+func clip(s string) string {
+	if len(s) > 200 {
+		return s[:200]
+	}
+	return s
+}
+
 type xDec struct{ d *xhpack.Decoder }
 
-func (x xDec) Write(p []byte) (int, error) { return x.d.Write(p) }
-func (x xDec) Close() error                { return x.d.Close() }
-func (x xDec) SetAllowed(v uint32)         { x.d.SetAllowedMaxDynamicTableSize(v) }
-func (x xDec) SetEmit(fn func(f hfield)) {
-	x.d.SetEmitFunc(func(f xhpack.HeaderField) { fn(hfield{f.Name, f.Value, f.Sensitive}) })
+func (x xDec) Block(wire []byte, cut int) ([]hfield, string, error) {
+	return bare(wire, cut, func(fn func(f hfield)) {
+		x.d.SetEmitFunc(func(f xhpack.HeaderField) { fn(hfield{f.Name, f.Value, f.Sensitive}) })
+	}, x.d.Write, x.d.Close)
 }
-func (x xDec) Table() tabView { return tabView{Tab: []nv{}} }
+func (x xDec) SetAllowed(v uint32) { x.d.SetAllowedMaxDynamicTableSize(v) }
+func (x xDec) Table() tabView      { return tabView{Tab: []nv{}} }
+
+// xRecv is the reference decoder behind a transcription of the specification's receiver (Hpack.tla RcvOne, Verdict):
+// x/net's own Framer gives up the connection when a header list gets too large (a policy, not a matter of the wire
+// format), its decoder has the same SetEmitEnabled and keeps the connection's compression context all the same.
+type xRecv struct {
+	d     *xhpack.Decoder
+	limit uint32
+}
+
+func (x xRecv) Block(wire []byte, cut int) ([]hfield, string, error) {
+	out := []hfield{}
+	room, reg, why := x.limit, false, "ok"
+	x.d.SetEmitEnabled(true)
+	x.d.SetEmitFunc(func(f xhpack.HeaderField) {
+		pseudo := strings.HasPrefix(f.Name, ":")
+		if pseudo && reg {
+			why = "malformed"
+			x.d.SetEmitEnabled(false)
+			return
+		}
+		if f.Size() > room {
+			why = "truncated"
+			x.d.SetEmitEnabled(false)
+			return
+		}
+		room -= f.Size()
+		reg = reg || !pseudo
+		out = append(out, hfield{f.Name, f.Value, f.Sensitive})
+	})
+	_, err := x.d.Write(wire[:cut])
+	if err == nil {
+		if _, err = x.d.Write(wire[cut:]); err == nil {
+			err = x.d.Close()
+		}
+	}
+	if err != nil {
+		return out, "", err
+	}
+	for i, a := range out { // a pseudo header twice; request and response pseudo headers mixed
+		for _, b := range out[:i] {
+			if strings.HasPrefix(a.N, ":") && strings.HasPrefix(b.N, ":") && (a.N == b.N || (a.N == ":status") != (b.N == ":status")) {
+				why = "malformed"
+			}
+		}
+	}
+	if why == "malformed" {
+		out = []hfield{}
+	}
+	return out, why, nil
+}
+func (x xRecv) SetAllowed(v uint32) { x.d.SetAllowedMaxDynamicTableSize(v) }
+func (x xRecv) Table() tabView      { return tabView{Tab: []nv{}} }
 
 // ---------------------------------------------------------------- replay
 
@@ -203,7 +347,8 @@ type hpOp struct {
 	S bool   `json:"s"`
 }
 type hpCase struct {
-	Ops []hpOp `json:"ops"`
+	Ops   []hpOp `json:"ops"`
+	Limit uint32 `json:"limit"` // the receiver's header-list limit; noLimit (or absent): the bare decoders
 }
 
 func errStr(err error) string {
@@ -224,16 +369,24 @@ func runHpack(casesPath, tracePath string) {
 			return err
 		}
 		ncase++
+		if c.Limit == 0 {
+			c.Limit = noLimit
+		}
 		for _, dir := range []string{"m2x", "x2m"} {
 			var buf bytes.Buffer
 			var enc encoder
 			var dec decoder
-			if dir == "m2x" {
+			switch {
+			case dir == "m2x" && c.Limit == noLimit:
 				enc, dec = mEnc{mhpack.NewEncoder(&buf)}, xDec{xhpack.NewDecoder(4096, nil)}
-			} else {
+			case dir == "m2x":
+				enc, dec = mEnc{mhpack.NewEncoder(&buf)}, xRecv{xhpack.NewDecoder(4096, nil), c.Limit}
+			case c.Limit == noLimit:
 				enc, dec = xEnc{xhpack.NewEncoder(&buf)}, mDec{mhpack.NewDecoder(4096, nil)}
+			default:
+				enc, dec = xEnc{xhpack.NewEncoder(&buf)}, newMRecv(c.Limit)
 			}
-			tr.Emit(vh.Ev{"ev": "case", "dir": dir})
+			tr.Emit(vh.Ev{"ev": "case", "dir": dir, "limit": c.Limit})
 			in := []hfield{}
 			failed := false
 			for _, op := range c.Ops {
@@ -255,19 +408,17 @@ func runHpack(casesPath, tracePath string) {
 					wire := append([]byte(nil), buf.Bytes()...)
 					buf.Reset()
 					reps, perr := parseBlock(wire)
-					out := []hfield{}
-					dec.SetEmit(func(f hfield) { out = append(out, f) })
 					// the block arrives in two pieces (HEADERS + CONTINUATION); the cut depends on the seed
 					h := fnv.New64a()
 					h.Write(wire)
 					cut := int((h.Sum64() ^ seed*0x9e3779b97f4a7c15) % uint64(len(wire)+1))
-					var derr error
-					if _, derr = dec.Write(wire[:cut]); derr == nil {
-						if _, derr = dec.Write(wire[cut:]); derr == nil {
-							derr = dec.Close()
-						}
+					if c.Limit != noLimit && cut == 0 && len(wire) > 0 {
+						// MOSN's parseHeadersFrame refuses a HEADERS frame whose block fragment is empty (x/net accepts
+						// it); that is a matter of the frame grammar (H2Frames), not of the compression context
+						cut = len(wire)
 					}
-					tr.Emit(vh.Ev{"ev": "blk", "in": in, "wire": reps, "out": out, "err": errStr(derr), "perr": errStr(perr),
+					out, verdict, derr := dec.Block(wire, cut)
+					tr.Emit(vh.Ev{"ev": "blk", "in": in, "wire": reps, "out": out, "verdict": verdict, "err": errStr(derr), "perr": errStr(perr),
 						"enc": enc.Table(), "dec": dec.Table(), "cut": cut, "len": len(wire)})
 					nblk++
 					in = []hfield{}
